@@ -269,6 +269,7 @@ def handle_extra_lines(text_region: pdm.PageXMLTextRegion,
                        columns: List[pdm.PageXMLColumn],
                        extra_lines: List[pdm.PageXMLTextLine],
                        gap_threshold: int = 50,
+                       min_column_width: int = 20,
                        debug: bool = False):
     non_col_lines = []
     if debug:
@@ -324,7 +325,13 @@ def handle_extra_lines(text_region: pdm.PageXMLTextRegion,
         #     print(f"RETURNING EXTRA LINE: {line.coords.left}-{line.coords.right}\t{line.coords.y}\t{line.text}")
         if debug:
             print('SPLITTING EXTRA')
-        extra_cols = split_lines_on_column_gaps(extra, gap_threshold=gap_threshold)
+        if min_column_width > 0:
+            # split the left-over lines again, now without a minimum column width:
+            # with the same minimum the same lines would be left over again, forever
+            extra_cols = split_lines_on_column_gaps(extra, gap_threshold=gap_threshold, min_column_width=0)
+        else:
+            # lines that fit no column range at all (zero width) stay together in one column
+            extra_cols = [make_derived_column(extra_lines, copy.deepcopy(extra.metadata), extra.id)]
         for extra_col in extra_cols:
             if debug:
                 print('\tEXTRA COL AFTER EXTRA SPLIT:', extra_col.stats)
@@ -342,7 +349,8 @@ def handle_extra_lines(text_region: pdm.PageXMLTextRegion,
 
 def split_lines_on_column_gaps(text_region: pdm.PageXMLTextRegion,
                                gap_threshold: int = 50,
-                               overlap_threshold: float = 0.5) -> List[
+                               overlap_threshold: float = 0.5,
+                               min_column_width: int = 20) -> List[
     pdm.PageXMLColumn]:
     """Takes a PageXMLTextRegion object and tries to split the lines into columns based
     on a minimum horizontal gap (in number of pixels) between columns.
@@ -356,12 +364,17 @@ def split_lines_on_column_gaps(text_region: pdm.PageXMLTextRegion,
         horizontally aligned (i.e. part of the same 'column'). Default is 0.5, that is, two lines need
         to horizontally overlap at least 50% of the shortest line.
     :type overlap_threshold: float
+    :param min_column_width: the minimum width in pixels of a range of text to become a column of
+        its own; lines in narrower ranges are added to an overlapping column or split separately.
+    :type min_column_width: int
     """
     column_ranges = find_column_gaps(text_region.get_lines(), gap_threshold=gap_threshold)
-    column_ranges = [col_range for col_range in column_ranges if col_range["end"] - col_range["start"] >= 20]
+    column_ranges = [col_range for col_range in column_ranges
+                     if col_range["end"] - col_range["start"] >= min_column_width]
     column_lines, extra_lines = sort_lines_in_column_ranges(text_region.get_lines(),
                                                             column_ranges,
                                                             overlap_threshold)
     columns = make_column_range_columns(text_region, column_lines)
-    columns = handle_extra_lines(text_region, columns, extra_lines, gap_threshold=gap_threshold)
+    columns = handle_extra_lines(text_region, columns, extra_lines, gap_threshold=gap_threshold,
+                                 min_column_width=min_column_width)
     return columns
